@@ -11,7 +11,12 @@ use datafusion_common::{DFSchema, DFSchemaRef, Result};
 use datafusion_expr::expr::{Alias, ScalarFunction};
 use datafusion_expr::logical_plan::{EmptyRelation, Extension, SubqueryAlias, UserDefinedLogicalNodeCore};
 use datafusion_expr::{ColumnarValue, Expr, LogicalPlan, Volatility, create_udf};
+use datafusion_physical_expr::EquivalenceProperties;
 use datafusion_physical_expr_common::physical_expr::PhysicalExpr;
+use datafusion_physical_expr_common::tree_node::ExprContext;
+use datafusion_physical_plan::execution_plan::{Boundedness, EmissionType};
+use datafusion_physical_plan::tree_node::PlanContext;
+use datafusion_physical_plan::{ChildrenPropertiesMode, DisplayAs, DisplayFormatType, ExecutionPlan, Partitioning, PlanProperties, ReplaceChildrenOptions};
 use serde_json::{Value, json};
 use std::cell::RefCell;
 use std::collections::BTreeSet;
@@ -31,19 +36,38 @@ fn parse(label: &str) -> (usize, String) {
 }
 
 trait Rt {
-    type N: TreeNode + Clone;
+    type N: TreeNode;
     const NAME: &'static str;
     fn make(label: &str, kids: Vec<Self::N>, variant: usize) -> Self::N;
     fn label(n: &Self::N) -> String;
-    fn kids(n: &Self::N) -> Vec<Self::N>;
+    /// children through the harness' own accessor (not the TreeNode API)
+    fn take_kids(n: Self::N) -> Vec<Self::N>;
     fn variant(n: &Self::N) -> usize;
-    fn remark(n: &Self::N, ph: &str) -> Self::N {
-        let (id, m) = parse(&Self::label(n));
-        Self::make(&lbl(id, &(m + ph)), Self::kids(n), Self::variant(n))
+    /// pre-order (id, marks) of the tree through the harness' own accessor
+    fn flat(n: &Self::N, out: &mut Vec<(usize, String)>);
+    /// extra structural self-consistency of a result tree (context nodes: payload in sync with children)
+    fn consistent(_n: &Self::N) -> Option<String> {
+        None
+    }
+    fn remark(n: Self::N, ph: &str) -> Self::N {
+        let (id, m) = parse(&Self::label(&n));
+        let v = Self::variant(&n);
+        Self::make(&lbl(id, &(m + ph)), Self::take_kids(n), v)
     }
 }
 
 // ------------------------------------------------------------------ Expr
+thread_local! {
+    static UDFS: RefCell<std::collections::HashMap<String, Arc<datafusion_expr::ScalarUDF>>> = RefCell::new(Default::default());
+}
+/// one ScalarUDF per name (two separately created UDFs of the same name do not compare equal)
+fn udf_named(label: &str) -> Arc<datafusion_expr::ScalarUDF> {
+    UDFS.with(|m| {
+        Arc::clone(m.borrow_mut().entry(label.to_string()).or_insert_with(|| {
+            Arc::new(create_udf(label, vec![], DataType::Int32, Volatility::Immutable, Arc::new(|_| Ok(ColumnarValue::Scalar(datafusion_common::ScalarValue::Int32(None))))))
+        }))
+    })
+}
 struct RExpr;
 impl Rt for RExpr {
     type N = Expr;
@@ -54,8 +78,7 @@ impl Rt for RExpr {
         } else if kids.len() == 1 && variant % 2 == 0 {
             Expr::Alias(Alias::new(kids[0].clone(), None::<&str>, label))
         } else {
-            let udf = create_udf(label, vec![], DataType::Int32, Volatility::Immutable, Arc::new(|_| Ok(ColumnarValue::Scalar(datafusion_common::ScalarValue::Int32(None)))));
-            Expr::ScalarFunction(ScalarFunction::new_udf(Arc::new(udf), kids))
+            Expr::ScalarFunction(ScalarFunction::new_udf(udf_named(label), kids))
         }
     }
     fn label(n: &Expr) -> String {
@@ -66,11 +89,19 @@ impl Rt for RExpr {
             _ => "n0x".into(),
         }
     }
-    fn kids(n: &Expr) -> Vec<Expr> {
+    fn take_kids(n: Expr) -> Vec<Expr> {
         match n {
-            Expr::Alias(a) => vec![(*a.expr).clone()],
-            Expr::ScalarFunction(f) => f.args.clone(),
+            Expr::Alias(a) => vec![*a.expr],
+            Expr::ScalarFunction(f) => f.args,
             _ => vec![],
+        }
+    }
+    fn flat(n: &Expr, out: &mut Vec<(usize, String)>) {
+        out.push(parse(&Self::label(n)));
+        match n {
+            Expr::Alias(a) => Self::flat(&a.expr, out),
+            Expr::ScalarFunction(f) => f.args.iter().for_each(|k| Self::flat(k, out)),
+            _ => {}
         }
     }
     fn variant(n: &Expr) -> usize {
@@ -79,12 +110,18 @@ impl Rt for RExpr {
 }
 
 // ------------------------------------------------------------------ LogicalPlan
-#[derive(Debug, Clone, PartialEq, Eq, Hash, PartialOrd)]
+#[derive(Debug, Clone, PartialEq, Eq, Hash)]
 struct ExtNode {
     label: String,
+    /// expressions of the node (they embed the subquery children of the *_with_subqueries walks)
+    subs: Vec<Expr>,
     inputs: Vec<LogicalPlan>,
-    #[allow(dead_code)]
-    schema_holder: (),
+    schema: DFSchemaRef,
+}
+impl PartialOrd for ExtNode {
+    fn partial_cmp(&self, other: &Self) -> Option<std::cmp::Ordering> {
+        self.label.partial_cmp(&other.label)
+    }
 }
 fn leaf_schema(label: &str) -> DFSchemaRef {
     Arc::new(DFSchema::try_from(Schema::new(vec![Field::new(label, DataType::Int32, true)])).unwrap())
@@ -97,17 +134,20 @@ impl UserDefinedLogicalNodeCore for ExtNode {
         self.inputs.iter().collect()
     }
     fn schema(&self) -> &DFSchemaRef {
-        self.inputs[0].schema()
+        &self.schema
     }
     fn expressions(&self) -> Vec<Expr> {
-        vec![]
+        self.subs.clone()
     }
     fn fmt_for_explain(&self, f: &mut fmt::Formatter) -> fmt::Result {
         write!(f, "ExtNode {}", self.label)
     }
-    fn with_exprs_and_inputs(&self, _exprs: Vec<Expr>, inputs: Vec<LogicalPlan>) -> Result<Self> {
-        Ok(ExtNode { label: self.label.clone(), inputs, schema_holder: () })
+    fn with_exprs_and_inputs(&self, exprs: Vec<Expr>, inputs: Vec<LogicalPlan>) -> Result<Self> {
+        Ok(ExtNode { label: self.label.clone(), subs: exprs, inputs, schema: Arc::clone(&self.schema) })
     }
+}
+fn ext(label: &str, subs: Vec<Expr>, inputs: Vec<LogicalPlan>) -> LogicalPlan {
+    LogicalPlan::Extension(Extension { node: Arc::new(ExtNode { label: label.to_string(), subs, inputs, schema: leaf_schema("x") }) })
 }
 struct RPlan;
 impl Rt for RPlan {
@@ -119,7 +159,7 @@ impl Rt for RPlan {
         } else if kids.len() == 1 && variant % 2 == 0 {
             LogicalPlan::SubqueryAlias(SubqueryAlias::try_new(Arc::new(kids[0].clone()), label).unwrap())
         } else {
-            LogicalPlan::Extension(Extension { node: Arc::new(ExtNode { label: label.to_string(), inputs: kids, schema_holder: () }) })
+            ext(label, vec![], kids)
         }
     }
     fn label(n: &LogicalPlan) -> String {
@@ -130,11 +170,17 @@ impl Rt for RPlan {
             _ => "n0x".into(),
         }
     }
-    fn kids(n: &LogicalPlan) -> Vec<LogicalPlan> {
-        match n {
+    fn take_kids(n: LogicalPlan) -> Vec<LogicalPlan> {
+        match &n {
             LogicalPlan::SubqueryAlias(a) => vec![(*a.input).clone()],
             LogicalPlan::Extension(e) => e.node.as_any().downcast_ref::<ExtNode>().map(|x| x.inputs.clone()).unwrap_or_default(),
             _ => vec![],
+        }
+    }
+    fn flat(n: &LogicalPlan, out: &mut Vec<(usize, String)>) {
+        out.push(parse(&Self::label(n)));
+        for k in Self::take_kids(n.clone()) {
+            Self::flat(&k, out);
         }
     }
     fn variant(n: &LogicalPlan) -> usize {
@@ -177,11 +223,619 @@ impl Rt for RPhys {
     fn label(n: &Self::N) -> String {
         n.downcast_ref::<PNode>().map(|p| p.label.clone()).unwrap_or("n0x".into())
     }
-    fn kids(n: &Self::N) -> Vec<Self::N> {
+    fn take_kids(n: Self::N) -> Vec<Self::N> {
         n.downcast_ref::<PNode>().map(|p| p.kids.clone()).unwrap_or_default()
+    }
+    fn flat(n: &Self::N, out: &mut Vec<(usize, String)>) {
+        out.push(parse(&Self::label(n)));
+        for k in Self::take_kids(Arc::clone(n)) {
+            Self::flat(&k, out);
+        }
     }
     fn variant(_n: &Self::N) -> usize {
         0
+    }
+}
+
+// ------------------------------------------------------------------ LogicalPlan with embedded subqueries
+/// One-child model nodes are `LogicalPlan::Subquery` nodes (label = outer reference column); a parent embeds its
+/// leading subquery children (`case.subs`) in its expressions (Exists / InSubquery / ScalarSubquery), the remaining
+/// children are inputs.  Parents are Extension nodes, or a Filter when the shape is [subqueries.., one input].
+struct RPlanSub;
+thread_local! {
+    static SUBS: RefCell<BTreeSet<usize>> = RefCell::new(BTreeSet::new());
+}
+const FILTER_V: usize = usize::MAX;
+fn sub_expr(i: usize, sq: &LogicalPlan) -> Expr {
+    let LogicalPlan::Subquery(sq) = sq else { panic!("subquery child is not a Subquery node") };
+    match i % 3 {
+        0 => Expr::Exists(datafusion_expr::expr::Exists { subquery: sq.clone(), negated: false }),
+        1 => Expr::InSubquery(datafusion_expr::expr::InSubquery::new(Box::new(datafusion_expr::lit(1)), sq.clone(), true)),
+        _ => Expr::ScalarSubquery(sq.clone()),
+    }
+}
+/// subquery plans of an expression in pre-order, by the harness' own recursion
+fn subqueries_of(e: &Expr, out: &mut Vec<LogicalPlan>) {
+    match e {
+        Expr::BinaryExpr(b) => {
+            subqueries_of(&b.left, out);
+            subqueries_of(&b.right, out);
+        }
+        Expr::Exists(x) => out.push(LogicalPlan::Subquery(x.subquery.clone())),
+        Expr::InSubquery(x) => out.push(LogicalPlan::Subquery(x.subquery.clone())),
+        Expr::ScalarSubquery(x) => out.push(LogicalPlan::Subquery(x.clone())),
+        _ => {}
+    }
+}
+fn first_column(e: &Expr) -> Option<String> {
+    match e {
+        Expr::Column(c) => Some(c.name.clone()),
+        Expr::BinaryExpr(b) => first_column(&b.left).or_else(|| first_column(&b.right)),
+        _ => None,
+    }
+}
+impl Rt for RPlanSub {
+    type N = LogicalPlan;
+    const NAME: &'static str = "LogicalPlan+subqueries";
+    fn make(label: &str, kids: Vec<LogicalPlan>, variant: usize) -> LogicalPlan {
+        let (id, _) = parse(label);
+        if kids.is_empty() {
+            return LogicalPlan::EmptyRelation(EmptyRelation { produce_one_row: false, schema: leaf_schema(label) });
+        }
+        if kids.len() == 1 && SUBS.with(|s| s.borrow().contains(&id)) {
+            return LogicalPlan::Subquery(datafusion_expr::logical_plan::Subquery {
+                subquery: Arc::new(kids.into_iter().next().unwrap()),
+                outer_ref_columns: vec![Expr::Column(datafusion_common::Column::from_name(label))],
+                spans: Default::default(),
+            });
+        }
+        // number of leading children that are embedded subqueries: those listed in the case
+        let j = kids.iter().take_while(|k| matches!(k, LogicalPlan::Subquery(_)) && SUBS.with(|s| s.borrow().contains(&parse(&Self::label(k)).0))).count();
+        let subs: Vec<Expr> = kids[..j].iter().enumerate().map(|(i, k)| sub_expr(i + variant % 3, k)).collect();
+        let inputs: Vec<LogicalPlan> = kids[j..].to_vec();
+        if variant == FILTER_V || (inputs.len() == 1 && j >= 1 && variant % 2 == 0) {
+            let mut pred = Expr::Column(datafusion_common::Column::from_name(label));
+            for e in subs {
+                pred = datafusion_expr::and(pred, e);
+            }
+            LogicalPlan::Filter(datafusion_expr::logical_plan::Filter::new(pred, Arc::new(inputs.into_iter().next().unwrap())))
+        } else {
+            ext(label, subs, inputs)
+        }
+    }
+    fn label(n: &LogicalPlan) -> String {
+        match n {
+            LogicalPlan::Subquery(s) => first_column(&s.outer_ref_columns[0]).unwrap_or("n0x".into()),
+            LogicalPlan::Filter(f) => first_column(&f.predicate).unwrap_or("n0x".into()),
+            _ => RPlan::label(n),
+        }
+    }
+    fn take_kids(n: LogicalPlan) -> Vec<LogicalPlan> {
+        match &n {
+            LogicalPlan::Subquery(s) => vec![(*s.subquery).clone()],
+            LogicalPlan::Filter(f) => {
+                let mut v = vec![];
+                subqueries_of(&f.predicate, &mut v);
+                v.push((*f.input).clone());
+                v
+            }
+            LogicalPlan::Extension(e) => {
+                let x = e.node.as_any().downcast_ref::<ExtNode>().unwrap();
+                let mut v = vec![];
+                x.subs.iter().for_each(|e| subqueries_of(e, &mut v));
+                v.extend(x.inputs.iter().cloned());
+                v
+            }
+            _ => vec![],
+        }
+    }
+    fn variant(n: &LogicalPlan) -> usize {
+        match n {
+            LogicalPlan::Filter(_) => FILTER_V,
+            // keep the expression kinds stable: Extension nodes are rebuilt with the kind offset 0 and the
+            // comparison only looks at labels
+            LogicalPlan::Subquery(_) => 1,
+            _ => 1,
+        }
+    }
+    fn flat(n: &LogicalPlan, out: &mut Vec<(usize, String)>) {
+        out.push(parse(&Self::label(n)));
+        for k in Self::take_kids(n.clone()) {
+            Self::flat(&k, out);
+        }
+    }
+}
+
+fn walk_subq(root: LogicalPlan, method: &str, cb: &Cb) -> std::result::Result<Walked<LogicalPlan>, String> {
+    type T = RPlanSub;
+    let e = |e: datafusion_common::DataFusionError| format!("traversal returned an error: {e}");
+    Ok(match method {
+        "apply" => {
+            let t = root.apply_with_subqueries(|n| Ok(cb.call::<T>(0, n).1)).map_err(e)?;
+            (root, false, Some(t))
+        }
+        "visit" => {
+            let t = root.visit_with_subqueries(&mut Vis::<T>(cb, Default::default())).map_err(e)?;
+            (root, false, Some(t))
+        }
+        _ => {
+            let r = match method {
+                "transform_down" => root.transform_down_with_subqueries(|n| cb.rw::<T>(0, n)),
+                "transform_up" => root.transform_up_with_subqueries(|n| cb.rw::<T>(1, n)),
+                "transform_down_up" => root.transform_down_up_with_subqueries(|n| cb.rw::<T>(0, n), |n| cb.rw::<T>(1, n)),
+                "rewrite" => root.rewrite_with_subqueries(&mut Rw::<T>(cb, Default::default())),
+                _ => return Err(format!("no subquery form of {method}")),
+            }
+            .map_err(e)?;
+            (r.data, r.transformed, Some(r.tnr))
+        }
+    })
+}
+
+fn run_case_subq(case: &Value, seed: usize) -> Option<String> {
+    let subs: BTreeSet<usize> = case["subs"].as_array().map(|a| a.iter().map(|x| x.as_u64().unwrap() as usize).collect()).unwrap_or_default();
+    SUBS.with(|s| *s.borrow_mut() = subs);
+    let cb = mk_cb(case);
+    let root = build::<RPlanSub>(&case["kids"], 1, seed);
+    let (tree, tr, tnr) = match walk_subq(root, case["method"].as_str().unwrap(), &cb) {
+        Ok(x) => x,
+        Err(e) => return Some(e),
+    };
+    let mut flat = vec![];
+    RPlanSub::flat(&tree, &mut flat);
+    verdict(case, &cb, tr, tnr, Some(flat))
+}
+
+// ------------------------------------------------------------------ Arc<dyn ExecutionPlan>
+#[derive(Debug)]
+struct XNode {
+    label: String,
+    kids: Vec<Arc<dyn ExecutionPlan>>,
+    cache: Arc<PlanProperties>,
+}
+impl XNode {
+    fn new(label: &str, kids: Vec<Arc<dyn ExecutionPlan>>) -> Self {
+        let schema = Arc::new(Schema::empty());
+        let cache = Arc::new(PlanProperties::new(
+            EquivalenceProperties::new(schema),
+            Partitioning::UnknownPartitioning(1),
+            EmissionType::Incremental,
+            Boundedness::Bounded,
+        ));
+        XNode { label: label.to_string(), kids, cache }
+    }
+}
+impl DisplayAs for XNode {
+    fn fmt_as(&self, _t: DisplayFormatType, f: &mut fmt::Formatter) -> fmt::Result {
+        write!(f, "XNode {}", self.label)
+    }
+}
+impl ExecutionPlan for XNode {
+    fn name(&self) -> &'static str {
+        "XNode"
+    }
+    fn properties(&self) -> &Arc<PlanProperties> {
+        &self.cache
+    }
+    fn children(&self) -> Vec<&Arc<dyn ExecutionPlan>> {
+        self.kids.iter().collect()
+    }
+    fn apply_expressions(&self, _f: &mut dyn FnMut(&Arc<dyn PhysicalExpr>) -> Result<TreeNodeRecursion>) -> Result<TreeNodeRecursion> {
+        Ok(TreeNodeRecursion::Continue)
+    }
+    fn replace_children(self: Arc<Self>, children: Vec<Arc<dyn ExecutionPlan>>, _: ReplaceChildrenOptions) -> Result<Arc<dyn ExecutionPlan>> {
+        Ok(Arc::new(XNode::new(&self.label, children)))
+    }
+    fn with_new_children(self: Arc<Self>, children: Vec<Arc<dyn ExecutionPlan>>) -> Result<Arc<dyn ExecutionPlan>> {
+        self.replace_children(children, ReplaceChildrenOptions::new(ChildrenPropertiesMode::Recompute))
+    }
+    fn execute(&self, _partition: usize, _context: Arc<datafusion_execution::TaskContext>) -> Result<datafusion_execution::SendableRecordBatchStream> {
+        datafusion_common::internal_err!("not executed")
+    }
+}
+struct RExec;
+impl Rt for RExec {
+    type N = Arc<dyn ExecutionPlan>;
+    const NAME: &'static str = "Arc<dyn ExecutionPlan>";
+    fn make(label: &str, kids: Vec<Self::N>, _variant: usize) -> Self::N {
+        Arc::new(XNode::new(label, kids))
+    }
+    fn label(n: &Self::N) -> String {
+        n.downcast_ref::<XNode>().map(|p| p.label.clone()).unwrap_or("n0x".into())
+    }
+    fn take_kids(n: Self::N) -> Vec<Self::N> {
+        n.downcast_ref::<XNode>().map(|p| p.kids.clone()).unwrap_or_default()
+    }
+    fn variant(_n: &Self::N) -> usize {
+        0
+    }
+    fn flat(n: &Self::N, out: &mut Vec<(usize, String)>) {
+        out.push(parse(&Self::label(n)));
+        for k in Self::take_kids(Arc::clone(n)) {
+            Self::flat(&k, out);
+        }
+    }
+}
+
+// ------------------------------------------------------------------ ConcreteTreeNode: ExprContext / PlanContext
+struct RExprCtx;
+impl Rt for RExprCtx {
+    type N = ExprContext<String>;
+    const NAME: &'static str = "ExprContext<String>";
+    fn make(label: &str, kids: Vec<Self::N>, _variant: usize) -> Self::N {
+        let expr: Arc<dyn PhysicalExpr> = Arc::new(PNode { label: label.to_string(), kids: kids.iter().map(|k| Arc::clone(&k.expr)).collect() });
+        ExprContext::new(expr, label.to_string(), kids)
+    }
+    fn label(n: &Self::N) -> String {
+        n.data.clone()
+    }
+    fn take_kids(n: Self::N) -> Vec<Self::N> {
+        n.children
+    }
+    fn variant(_n: &Self::N) -> usize {
+        0
+    }
+    fn flat(n: &Self::N, out: &mut Vec<(usize, String)>) {
+        out.push(parse(&n.data));
+        n.children.iter().for_each(|k| Self::flat(k, out));
+    }
+    /// payload expression in sync with the child contexts (with_new_children -> update_expr_from_children)
+    fn consistent(n: &Self::N) -> Option<String> {
+        let ek = n.expr.children();
+        if RPhys::label(&n.expr) != n.data {
+            return Some(format!("ExprContext {}: expr label {} differs from the payload", n.data, RPhys::label(&n.expr)));
+        }
+        if ek.len() != n.children.len() || !ek.iter().zip(n.children.iter()).all(|(a, b)| Arc::ptr_eq(a, &b.expr)) {
+            return Some(format!("ExprContext {}: expr.children() out of sync with the child contexts", n.data));
+        }
+        n.children.iter().find_map(Self::consistent)
+    }
+}
+struct RPlanCtx;
+impl Rt for RPlanCtx {
+    type N = PlanContext<String>;
+    const NAME: &'static str = "PlanContext<String>";
+    fn make(label: &str, kids: Vec<Self::N>, _variant: usize) -> Self::N {
+        let plan: Arc<dyn ExecutionPlan> = Arc::new(XNode::new(label, kids.iter().map(|k| Arc::clone(&k.plan)).collect()));
+        PlanContext::new(plan, label.to_string(), kids)
+    }
+    fn label(n: &Self::N) -> String {
+        n.data.clone()
+    }
+    fn take_kids(n: Self::N) -> Vec<Self::N> {
+        n.children
+    }
+    fn variant(_n: &Self::N) -> usize {
+        0
+    }
+    fn flat(n: &Self::N, out: &mut Vec<(usize, String)>) {
+        out.push(parse(&n.data));
+        n.children.iter().for_each(|k| Self::flat(k, out));
+    }
+    fn consistent(n: &Self::N) -> Option<String> {
+        let ek = n.plan.children();
+        if RExec::label(&n.plan) != n.data {
+            return Some(format!("PlanContext {}: plan label {} differs from the payload", n.data, RExec::label(&n.plan)));
+        }
+        if ek.len() != n.children.len() || !ek.iter().zip(n.children.iter()).all(|(a, b)| Arc::ptr_eq(a, &b.plan)) {
+            return Some(format!("PlanContext {}: plan.children() out of sync with the child contexts", n.data));
+        }
+        n.children.iter().find_map(Self::consistent)
+    }
+}
+
+// ------------------------------------------------------------------ variant sweeps (STAR cases)
+// A STAR case (root + k leaves) is mapped onto every real node variant with k children, the leaves taking the
+// child slots in the documented field order.  The root is "the node that is not a leaf"; expected result =
+// the same variant rebuilt with the marked leaves (checks slot order and that every other attribute survives).
+struct RExprVar;
+impl Rt for RExprVar {
+    type N = Expr;
+    const NAME: &'static str = "Expr variants";
+    fn make(label: &str, _kids: Vec<Expr>, _variant: usize) -> Expr {
+        Expr::Column(datafusion_common::Column::from_name(label))
+    }
+    fn label(n: &Expr) -> String {
+        match n {
+            Expr::Column(c) => c.name.clone(),
+            _ => lbl(1, ""),
+        }
+    }
+    fn take_kids(_n: Expr) -> Vec<Expr> {
+        vec![]
+    }
+    fn variant(_n: &Expr) -> usize {
+        0
+    }
+    fn flat(_n: &Expr, _out: &mut Vec<(usize, String)>) {}
+}
+struct RPlanVar;
+impl Rt for RPlanVar {
+    type N = LogicalPlan;
+    const NAME: &'static str = "LogicalPlan variants (inputs)";
+    fn make(label: &str, _kids: Vec<LogicalPlan>, _variant: usize) -> LogicalPlan {
+        LogicalPlan::EmptyRelation(EmptyRelation { produce_one_row: false, schema: leaf_schema(label) })
+    }
+    fn label(n: &LogicalPlan) -> String {
+        match n {
+            LogicalPlan::EmptyRelation(e) => e.schema.field(0).name().clone(),
+            _ => lbl(1, ""),
+        }
+    }
+    fn take_kids(_n: LogicalPlan) -> Vec<LogicalPlan> {
+        vec![]
+    }
+    fn variant(_n: &LogicalPlan) -> usize {
+        0
+    }
+    fn flat(_n: &LogicalPlan, _out: &mut Vec<(usize, String)>) {}
+}
+
+fn bx(e: &Expr) -> Box<Expr> {
+    Box::new(e.clone())
+}
+fn a_subquery() -> datafusion_expr::logical_plan::Subquery {
+    datafusion_expr::logical_plan::Subquery {
+        subquery: Arc::new(LogicalPlan::EmptyRelation(EmptyRelation { produce_one_row: true, schema: leaf_schema("sq") })),
+        outer_ref_columns: vec![],
+        spans: Default::default(),
+    }
+}
+fn sort_of(e: &Expr, asc: bool) -> datafusion_expr::expr::Sort {
+    datafusion_expr::expr::Sort { expr: e.clone(), asc, nulls_first: !asc }
+}
+
+const EXPR_VARIANTS: &[&str] = &[
+    "Alias", "Unnest", "Not", "IsNotNull", "IsTrue", "IsFalse", "IsUnknown", "IsNotTrue", "IsNotFalse", "IsNotUnknown", "IsNull", "Negative",
+    "Cast", "TryCast", "InSubquery", "SetComparison", "Lambda", "ScalarFunction", "Rollup", "Cube", "GroupingSets", "BinaryExpr", "Like",
+    "SimilarTo", "InList", "Between", "Case(expr,when,then..)", "Case(when,then..,else)", "Case(expr,..,else)", "AggregateFunction",
+    "WindowFunction",
+];
+
+/// Expr variant `name` over the leaves `l` (children in documented field order); None if the arity does not fit
+fn expr_variant(name: &str, l: &[Expr]) -> Option<Expr> {
+    use datafusion_expr::expr::*;
+    let k = l.len();
+    let one = |f: fn(Box<Expr>) -> Expr| if k == 1 { Some(f(bx(&l[0]))) } else { None };
+    let whens = |xs: &[Expr]| -> Vec<(Box<Expr>, Box<Expr>)> { xs.chunks(2).map(|c| (bx(&c[0]), bx(&c[1]))).collect() };
+    Some(match name {
+        "Alias" if k == 1 => Expr::Alias(Alias::new(l[0].clone(), Some("t"), "al")),
+        "Unnest" if k == 1 => Expr::Unnest(Unnest { expr: bx(&l[0]), outer: true }),
+        "Not" => return one(Expr::Not),
+        "IsNotNull" => return one(Expr::IsNotNull),
+        "IsTrue" => return one(Expr::IsTrue),
+        "IsFalse" => return one(Expr::IsFalse),
+        "IsUnknown" => return one(Expr::IsUnknown),
+        "IsNotTrue" => return one(Expr::IsNotTrue),
+        "IsNotFalse" => return one(Expr::IsNotFalse),
+        "IsNotUnknown" => return one(Expr::IsNotUnknown),
+        "IsNull" => return one(Expr::IsNull),
+        "Negative" => return one(Expr::Negative),
+        "Cast" if k == 1 => Expr::Cast(Cast::new(bx(&l[0]), DataType::Int64)),
+        "TryCast" if k == 1 => Expr::TryCast(TryCast::new(bx(&l[0]), DataType::Utf8)),
+        "InSubquery" if k == 1 => Expr::InSubquery(InSubquery::new(bx(&l[0]), a_subquery(), true)),
+        "SetComparison" if k == 1 => Expr::SetComparison(SetComparison {
+            expr: bx(&l[0]), subquery: a_subquery(), op: datafusion_expr::Operator::Gt, quantifier: SetQuantifier::All,
+        }),
+        "Lambda" if k == 1 => Expr::Lambda(Lambda { params: vec!["p".into()], body: bx(&l[0]) }),
+        "ScalarFunction" if k >= 1 => RExpr::make("fn_sweep", l.to_vec(), 1),
+        "Rollup" if k >= 1 => Expr::GroupingSet(GroupingSet::Rollup(l.to_vec())),
+        "Cube" if k >= 1 => Expr::GroupingSet(GroupingSet::Cube(l.to_vec())),
+        "GroupingSets" if k >= 2 => Expr::GroupingSet(GroupingSet::GroupingSets(vec![l[..1].to_vec(), l[1..].to_vec()])),
+        "BinaryExpr" if k == 2 => Expr::BinaryExpr(BinaryExpr::new(bx(&l[0]), datafusion_expr::Operator::Minus, bx(&l[1]))),
+        "Like" if k == 2 => Expr::Like(Like::new(true, bx(&l[0]), bx(&l[1]), Some('#'), true)),
+        "SimilarTo" if k == 2 => Expr::SimilarTo(Like::new(false, bx(&l[0]), bx(&l[1]), None, false)),
+        "InList" if k >= 2 => Expr::InList(InList::new(bx(&l[0]), l[1..].to_vec(), true)),
+        "Between" if k == 3 => Expr::Between(Between::new(bx(&l[0]), true, bx(&l[1]), bx(&l[2]))),
+        "Case(expr,when,then..)" if k >= 3 && k % 2 == 1 => Expr::Case(Case::new(Some(bx(&l[0])), whens(&l[1..]), None)),
+        "Case(when,then..,else)" if k >= 3 && k % 2 == 1 => Expr::Case(Case::new(None, whens(&l[..k - 1]), Some(bx(&l[k - 1])))),
+        "Case(expr,..,else)" if k >= 4 && k % 2 == 0 => Expr::Case(Case::new(Some(bx(&l[0])), whens(&l[1..k - 1]), Some(bx(&l[k - 1])))),
+        "AggregateFunction" if k >= 1 => {
+            // args, filter, order_by
+            let (args, filter, order): (Vec<Expr>, Option<Box<Expr>>, Vec<Sort>) = match k {
+                1 => (l.to_vec(), None, vec![]),
+                2 => (l[..1].to_vec(), Some(bx(&l[1])), vec![]),
+                3 => (l[..1].to_vec(), Some(bx(&l[1])), vec![sort_of(&l[2], false)]),
+                _ => (l[..2].to_vec(), Some(bx(&l[2])), l[3..].iter().map(|e| sort_of(e, true)).collect()),
+            };
+            Expr::AggregateFunction(AggregateFunction::new_udf(datafusion::functions_aggregate::count::count_udaf(), args, true, filter, order, None))
+        }
+        "WindowFunction" if k >= 2 => {
+            // args, partition_by, order_by, filter
+            let (args, part, order, filter): (Vec<Expr>, Vec<Expr>, Vec<Sort>, Option<Box<Expr>>) = match k {
+                2 => (l[..1].to_vec(), l[1..].to_vec(), vec![], None),
+                3 => (l[..1].to_vec(), l[1..2].to_vec(), vec![sort_of(&l[2], false)], None),
+                4 => (l[..1].to_vec(), l[1..2].to_vec(), vec![sort_of(&l[2], true)], Some(bx(&l[3]))),
+                _ => (l[..2].to_vec(), l[2..3].to_vec(), l[3..k - 1].iter().map(|e| sort_of(e, true)).collect(), Some(bx(&l[k - 1]))),
+            };
+            let mut w = WindowFunction::new(datafusion_expr::WindowFunctionDefinition::AggregateUDF(datafusion::functions_aggregate::count::count_udaf()), args);
+            w.params.partition_by = part;
+            w.params.order_by = order;
+            w.params.filter = filter;
+            w.params.distinct = true;
+            Expr::from(w)
+        }
+        _ => return None,
+    })
+}
+
+const PLAN_INPUT_VARIANTS: &[&str] = &[
+    "Filter", "Sort", "Limit", "Repartition", "Distinct::All", "Distinct::On", "Window", "SubqueryAlias", "Subquery", "Analyze", "Projection",
+    "Aggregate", "Extension", "Join", "RecursiveQuery", "Union",
+];
+fn c(name: &str) -> Expr {
+    Expr::Column(datafusion_common::Column::from_name(name))
+}
+fn plan_input_variant(name: &str, l: &[LogicalPlan]) -> Option<LogicalPlan> {
+    use datafusion_expr::logical_plan::*;
+    let k = l.len();
+    let a = |i: usize| Arc::new(l[i].clone());
+    // node schemas are not recomputed by map_children: keep them independent of the (re-labelled) inputs
+    let sch = |_i: usize| wide_schema(1);
+    Some(match name {
+        "Filter" if k == 1 => LogicalPlan::Filter(Filter::new(c("p"), a(0))),
+        "Sort" if k == 1 => LogicalPlan::Sort(Sort { expr: vec![sort_of(&c("s"), false)], input: a(0), fetch: Some(7) }),
+        "Limit" if k == 1 => LogicalPlan::Limit(Limit { skip: Some(Box::new(datafusion_expr::lit(3i64))), fetch: Some(Box::new(datafusion_expr::lit(5i64))), input: a(0) }),
+        "Repartition" if k == 1 => LogicalPlan::Repartition(Repartition { input: a(0), partitioning_scheme: Partitioning::Hash(vec![c("h")], 3) }),
+        "Distinct::All" if k == 1 => LogicalPlan::Distinct(Distinct::All(a(0))),
+        "Distinct::On" if k == 1 => LogicalPlan::Distinct(Distinct::On(DistinctOn {
+            on_expr: vec![c("o")], select_expr: vec![c("s")], sort_expr: Some(vec![sort_of(&c("o"), true)]), input: a(0), schema: sch(0),
+        })),
+        "Window" if k == 1 => LogicalPlan::Window(Window { input: a(0), window_expr: vec![c("w")], schema: sch(0) }),
+        "SubqueryAlias" if k == 1 => {
+            // the schema is derived at construction and not recomputed by map_children: derive it from a fixed plan
+            let mut sa = SubqueryAlias::try_new(Arc::new(RPlanVar::make("fixed", vec![], 0)), "al").ok()?;
+            sa.input = a(0);
+            LogicalPlan::SubqueryAlias(sa)
+        }
+        "Subquery" if k == 1 => LogicalPlan::Subquery(Subquery { subquery: a(0), outer_ref_columns: vec![c("outer")], spans: Default::default() }),
+        "Analyze" if k == 1 => LogicalPlan::Analyze(Analyze { verbose: true, format: ExplainFormat::Indent, input: a(0), schema: sch(0), analyze_level: None, analyze_categories: None }),
+        "Projection" if k == 1 => LogicalPlan::Projection(Projection::try_new_with_schema(vec![c("pr")], a(0), sch(0)).ok()?),
+        "Aggregate" if k == 1 => LogicalPlan::Aggregate(Aggregate::try_new_with_schema(a(0), vec![c("g")], vec![], sch(0)).ok()?),
+        "Extension" if k >= 1 => ext("ext_sweep", vec![c("e")], l.to_vec()),
+        "Join" if k == 2 => LogicalPlan::Join(Join {
+            left: a(0), right: a(1), on: vec![(c("l"), c("r"))], filter: Some(c("f")), join_type: datafusion_common::JoinType::LeftSemi,
+            join_constraint: datafusion_common::JoinConstraint::Using, schema: sch(0), null_equality: datafusion_common::NullEquality::NullEqualsNull, null_aware: false,
+        }),
+        "RecursiveQuery" if k == 2 => LogicalPlan::RecursiveQuery(RecursiveQuery { name: "rq".into(), static_term: a(0), recursive_term: a(1), is_distinct: true, schema: sch(0) }),
+        "Union" if k >= 2 => LogicalPlan::Union(Union { inputs: (0..k).map(a).collect(), schema: sch(0) }),
+        _ => return None,
+    })
+}
+
+const PLAN_EXPR_VARIANTS: &[&str] = &[
+    "Projection", "Values", "Filter", "Repartition::Hash", "Repartition::DistributeBy", "Window", "Aggregate", "Join(on..)", "Join(on..,filter)", "Sort",
+    "Extension", "Distinct::On", "Limit(skip)", "Limit(fetch)", "Limit(skip,fetch)",
+];
+fn wide_schema(n: usize) -> DFSchemaRef {
+    Arc::new(DFSchema::try_from(Schema::new((0..n).map(|i| Field::new(format!("c{i}"), DataType::Int32, true)).collect::<Vec<_>>())).unwrap())
+}
+/// plan variant `name` whose expressions (in apply_expressions order) are exactly the leaves `l`
+fn plan_expr_variant(name: &str, l: &[Expr]) -> Option<LogicalPlan> {
+    use datafusion_expr::logical_plan::*;
+    let k = l.len();
+    let input = Arc::new(LogicalPlan::EmptyRelation(EmptyRelation { produce_one_row: false, schema: leaf_schema("in") }));
+    let other = Arc::new(LogicalPlan::EmptyRelation(EmptyRelation { produce_one_row: false, schema: leaf_schema("in2") }));
+    Some(match name {
+        "Projection" if k >= 1 => LogicalPlan::Projection(Projection::try_new_with_schema(l.to_vec(), input, wide_schema(k)).ok()?),
+        "Values" if k >= 2 && k % 2 == 0 => LogicalPlan::Values(Values { schema: wide_schema(2), values: l.chunks(2).map(|r| r.to_vec()).collect() }),
+        "Filter" if k == 1 => LogicalPlan::Filter(Filter::new(l[0].clone(), input)),
+        "Repartition::Hash" if k >= 1 => LogicalPlan::Repartition(Repartition { input, partitioning_scheme: Partitioning::Hash(l.to_vec(), 4) }),
+        "Repartition::DistributeBy" if k >= 1 => LogicalPlan::Repartition(Repartition { input, partitioning_scheme: Partitioning::DistributeBy(l.to_vec()) }),
+        "Window" if k >= 1 => LogicalPlan::Window(Window { input, window_expr: l.to_vec(), schema: wide_schema(k) }),
+        "Aggregate" if k >= 2 => LogicalPlan::Aggregate(Aggregate::try_new_with_schema(input, l[..k / 2].to_vec(), l[k / 2..].to_vec(), wide_schema(k)).ok()?),
+        "Join(on..)" | "Join(on..,filter)" => {
+            let with_filter = name.ends_with("filter)");
+            if (with_filter && (k < 3 || k % 2 == 0)) || (!with_filter && (k < 2 || k % 2 == 1)) {
+                return None;
+            }
+            let npairs = k / 2;
+            LogicalPlan::Join(Join {
+                left: input, right: other, on: (0..npairs).map(|i| (l[2 * i].clone(), l[2 * i + 1].clone())).collect(),
+                filter: if with_filter { Some(l[k - 1].clone()) } else { None }, join_type: datafusion_common::JoinType::Full,
+                join_constraint: datafusion_common::JoinConstraint::On, schema: wide_schema(2), null_equality: datafusion_common::NullEquality::NullEqualsNothing, null_aware: false,
+            })
+        }
+        "Sort" if k >= 1 => LogicalPlan::Sort(Sort { expr: l.iter().enumerate().map(|(i, e)| sort_of(e, i % 2 == 0)).collect(), input, fetch: Some(2) }),
+        "Extension" if k >= 1 => ext("ext_sweep", l.to_vec(), vec![(*input).clone()]),
+        "Distinct::On" if k >= 3 => LogicalPlan::Distinct(Distinct::On(DistinctOn {
+            on_expr: l[..1].to_vec(), select_expr: l[1..k - 1].to_vec(), sort_expr: Some(vec![sort_of(&l[k - 1], false)]), input, schema: wide_schema(k - 2),
+        })),
+        "Limit(skip)" if k == 1 => LogicalPlan::Limit(Limit { skip: Some(bx(&l[0])), fetch: None, input }),
+        "Limit(fetch)" if k == 1 => LogicalPlan::Limit(Limit { skip: None, fetch: Some(bx(&l[0])), input }),
+        "Limit(skip,fetch)" if k == 2 => LogicalPlan::Limit(Limit { skip: Some(bx(&l[0])), fetch: Some(bx(&l[1])), input }),
+        _ => return None,
+    })
+}
+
+/// variants whose child containers end with an empty slot for this arity (known finding: a Jump answered for
+/// the last child is then not passed on)
+fn trailing_empty(name: &str, k: usize) -> bool {
+    match name {
+        "AggregateFunction" => k <= 2,
+        "WindowFunction" => k <= 3,
+        "Case(expr,when,then..)" => true,
+        "Join(on..)" | "Limit(skip)" => true,
+        _ => false,
+    }
+}
+const KNOWN_JUMP: &str = "Jump answered for the last child is dropped when the node's child containers end with an empty slot";
+
+fn marked_labels(case: &Value, k: usize) -> Vec<String> {
+    expected_flat(case, k + 1).into_iter().skip(1).map(|(id, m)| lbl(id, &m)).collect()
+}
+
+/// prefix the failure message with the known-finding key when the failure is the documented one
+fn tag_known(case: &Value, name: &str, k: usize, r: Option<String>) -> Option<String> {
+    let r = r?;
+    let last_jumps = case["dec"][k].to_string().contains('J');
+    let kind_ok = r.starts_with("callback log") || r.starts_with("final TreeNodeRecursion");
+    if trailing_empty(name, k) && last_jumps && kind_ok { Some(format!("[{KNOWN_JUMP}] {r}")) } else { Some(r) }
+}
+
+/// STAR case on every variant of the three sweeps; returns (variant name, failure) list and the number of runs
+fn run_star(case: &Value, out: &mut Vec<(String, Option<String>)>) {
+    let k = case["size"].as_array().unwrap().len() - 1;
+    let method = case["method"].as_str().unwrap();
+    let plain: Vec<String> = (2..=k + 1).map(|i| lbl(i, "")).collect();
+    let marked = marked_labels(case, k);
+    let rewriting = matches!(method, "transform_down" | "transform_up" | "transform_down_up" | "rewrite" | "map_children");
+    // 1. Expr variants
+    for name in EXPR_VARIANTS {
+        let leaves: Vec<Expr> = plain.iter().map(|s| c(s)).collect();
+        let Some(root) = expr_variant(name, &leaves) else { continue };
+        let cb = mk_cb(case);
+        let r = catch_unwind(AssertUnwindSafe(|| match walk::<RExprVar>(root, method, &cb) {
+            Err(e) => Some(e),
+            Ok((tree, tr, tnr)) => verdict(case, &cb, tr, tnr, None).or_else(|| {
+                let exp = expr_variant(name, &(if rewriting { &marked } else { &plain }).iter().map(|s| c(s)).collect::<Vec<_>>()).unwrap();
+                if tree != exp { Some(format!("result node {tree:?} differs from the expected {exp:?}")) } else { None }
+            }),
+        }));
+        let r = r.unwrap_or_else(|_| Some("panic during the traversal".into()));
+        out.push((format!("Expr::{name}/{k}"), tag_known(case, name, k, r)));
+    }
+    // 2. LogicalPlan variants: inputs
+    let leaf_plan = |s: &String| RPlanVar::make(s, vec![], 0);
+    for name in PLAN_INPUT_VARIANTS {
+        let leaves: Vec<LogicalPlan> = plain.iter().map(leaf_plan).collect();
+        let Some(root) = plan_input_variant(name, &leaves) else { continue };
+        let cb = mk_cb(case);
+        let r = catch_unwind(AssertUnwindSafe(|| match walk::<RPlanVar>(root, method, &cb) {
+            Err(e) => Some(e),
+            Ok((tree, tr, tnr)) => verdict(case, &cb, tr, tnr, None).or_else(|| {
+                let exp = plan_input_variant(name, &(if rewriting { &marked } else { &plain }).iter().map(leaf_plan).collect::<Vec<_>>()).unwrap();
+                if tree != exp { Some(format!("result plan {tree:?} differs from the expected {exp:?}")) } else { None }
+            }),
+        }));
+        out.push((format!("LogicalPlan::{name}/{k} inputs"), r.unwrap_or_else(|_| Some("panic during the traversal".into()))));
+    }
+    // 3. LogicalPlan variants: expressions (apply_expressions = apply_children, map_expressions = map_children)
+    if matches!(method, "apply_children" | "map_children") {
+        for name in PLAN_EXPR_VARIANTS {
+            let leaves: Vec<Expr> = plain.iter().map(|s| c(s)).collect();
+            let Some(root) = plan_expr_variant(name, &leaves) else { continue };
+            let cb = mk_cb(case);
+            let r = catch_unwind(AssertUnwindSafe(|| {
+                let (tree, tr, tnr) = if method == "apply_children" {
+                    match root.apply_expressions(|e| Ok(cb.call::<RExprVar>(0, e).1)) {
+                        Ok(t) => (root, false, t),
+                        Err(e) => return Some(format!("apply_expressions returned an error: {e}")),
+                    }
+                } else {
+                    match root.map_expressions(|e| cb.rw::<RExprVar>(0, e)) {
+                        Ok(t) => (t.data, t.transformed, t.tnr),
+                        Err(e) => return Some(format!("map_expressions returned an error: {e}")),
+                    }
+                };
+                verdict(case, &cb, tr, Some(tnr), None).or_else(|| {
+                    let exp = plan_expr_variant(name, &(if rewriting { &marked } else { &plain }).iter().map(|s| c(s)).collect::<Vec<_>>()).unwrap();
+                    if tree != exp { Some(format!("result plan {tree:?} differs from the expected {exp:?}")) } else { None }
+                })
+            }));
+            let r = r.unwrap_or_else(|_| Some("panic during the traversal".into()));
+            out.push((format!("LogicalPlan::{name}/{k} expressions"), tag_known(case, name, k, r)));
+        }
     }
 }
 
@@ -217,7 +871,7 @@ impl Cb {
     }
     fn rw<T: Rt>(&self, ph: usize, n: T::N) -> Result<Transformed<T::N>> {
         let (chg, dec) = self.call::<T>(ph, &n);
-        let n2 = if chg { T::remark(&n, if ph == 0 { "d" } else { "u" }) } else { n };
+        let n2 = if chg { T::remark(n, if ph == 0 { "d" } else { "u" }) } else { n };
         Ok(Transformed::new(n2, chg, dec))
     }
 }
@@ -251,44 +905,56 @@ fn build<T: Rt>(kids: &Value, n: usize, seed: usize) -> T::N {
     T::make(&lbl(n, ""), ks, n + seed)
 }
 
-/// pre-order (id, marks) of a real tree through the harness' own child accessor
-fn flatten<T: Rt>(n: &T::N, out: &mut Vec<(usize, String)>) {
-    out.push(parse(&T::label(n)));
-    for k in T::kids(n) {
-        flatten::<T>(&k, out);
-    }
-}
-
-fn run_case<T: Rt>(case: &Value, seed: usize) -> Option<String> {
+fn mk_cb(case: &Value) -> Cb {
     let nn = case["size"].as_array().unwrap().len();
-    let cb = Cb {
+    Cb {
         dec: (0..nn).map(|i| [tnr_of(case["dec"][i][0].as_str().unwrap()), tnr_of(case["dec"][i][1].as_str().unwrap())]).collect(),
         chg: (0..nn).map(|i| [case["chg"][i][0] == 1, case["chg"][i][1] == 1]).collect(),
         log: RefCell::new(vec![]),
-    };
-    let root = build::<T>(&case["kids"], 1, seed);
-    let method = case["method"].as_str().unwrap();
-    // (result tree, transformed, tnr)
-    let (tree, tr, tnr): (Option<T::N>, bool, Option<TreeNodeRecursion>) = match method {
-        "apply" => (None, false, Some(root.apply(|n| Ok(cb.call::<T>(0, n).1)).unwrap())),
-        "visit" => (None, false, Some(root.visit(&mut Vis::<T>(&cb, Default::default())).unwrap())),
+    }
+}
+
+type Walked<N> = (N, bool, Option<TreeNodeRecursion>);
+
+/// run one TreeNode method; returns the resulting (or untouched) tree, the flag and the final recursion state
+fn walk<T: Rt>(root: T::N, method: &str, cb: &Cb) -> std::result::Result<Walked<T::N>, String> {
+    let e = |e: datafusion_common::DataFusionError| format!("traversal returned an error: {e}");
+    Ok(match method {
+        "apply" => {
+            let t = root.apply(|n| Ok(cb.call::<T>(0, n).1)).map_err(e)?;
+            (root, false, Some(t))
+        }
+        "apply_children" => {
+            let t = root.apply_children(|n| Ok(cb.call::<T>(0, n).1)).map_err(e)?;
+            (root, false, Some(t))
+        }
+        "visit" => {
+            let t = root.visit(&mut Vis::<T>(cb, Default::default())).map_err(e)?;
+            (root, false, Some(t))
+        }
         "exists" => {
-            let found = root.exists(|n| Ok(cb.call::<T>(0, n).0)).unwrap();
-            (None, found, None)
+            let found = root.exists(|n| Ok(cb.call::<T>(0, n).0)).map_err(e)?;
+            (root, found, None)
         }
         _ => {
             let r = match method {
-                "transform_down" => root.clone().transform_down(|n| cb.rw::<T>(0, n)),
-                "transform_up" => root.clone().transform_up(|n| cb.rw::<T>(1, n)),
-                "transform_down_up" => root.clone().transform_down_up(|n| cb.rw::<T>(0, n), |n| cb.rw::<T>(1, n)),
-                "rewrite" => root.clone().rewrite(&mut Rw::<T>(&cb, Default::default())),
-                "map_children" => root.clone().map_children(|n| cb.rw::<T>(0, n)),
-                _ => return Some(format!("unknown method {method}")),
+                "transform_down" => root.transform_down(|n| cb.rw::<T>(0, n)),
+                "transform_up" => root.transform_up(|n| cb.rw::<T>(1, n)),
+                "transform_down_up" => root.transform_down_up(|n| cb.rw::<T>(0, n), |n| cb.rw::<T>(1, n)),
+                "rewrite" => root.rewrite(&mut Rw::<T>(cb, Default::default())),
+                "map_children" => root.map_children(|n| cb.rw::<T>(0, n)),
+                _ => return Err(format!("unknown method {method}")),
             }
-            .unwrap();
-            (Some(r.data), r.transformed, Some(r.tnr))
+            .map_err(e)?;
+            (r.data, r.transformed, Some(r.tnr))
         }
-    };
+    })
+}
+
+/// compare log, flag, final recursion state and (optionally) the flattened result tree with the model
+fn verdict(case: &Value, cb: &Cb, tr: bool, tnr: Option<TreeNodeRecursion>, flat: Option<Vec<(usize, String)>>) -> Option<String> {
+    let nn = case["size"].as_array().unwrap().len();
+    let method = case["method"].as_str().unwrap();
     let log = cb.log.borrow();
     let exp_log: Vec<(String, usize, String)> = case["log"]
         .as_array()
@@ -307,17 +973,31 @@ fn run_case<T: Rt>(case: &Value, seed: usize) -> Option<String> {
             return Some(format!("final TreeNodeRecursion {}, model {}", tnr_s(t), case["tnr"]));
         }
     }
-    let set = |k: &str| -> BTreeSet<usize> { case[k].as_array().unwrap().iter().map(|x| x.as_u64().unwrap() as usize).collect() };
-    let (dm, um) = (set("dm"), set("um"));
-    let mut flat = vec![];
-    flatten::<T>(tree.as_ref().unwrap_or(&root), &mut flat);
-    let exp_flat: Vec<(usize, String)> = (1..=nn)
-        .map(|i| (i, format!("{}{}", if dm.contains(&i) { "d" } else { "" }, if um.contains(&i) { "u" } else { "" })))
-        .collect();
-    if flat != exp_flat {
-        return Some(format!("result tree (pre-order node, marks) {flat:?}, model {exp_flat:?}"));
+    if let Some(flat) = flat {
+        let exp_flat = expected_flat(case, nn);
+        if flat != exp_flat {
+            return Some(format!("result tree (pre-order node, marks) {flat:?}, model {exp_flat:?}"));
+        }
     }
     None
+}
+
+fn expected_flat(case: &Value, nn: usize) -> Vec<(usize, String)> {
+    let set = |k: &str| -> BTreeSet<usize> { case[k].as_array().unwrap().iter().map(|x| x.as_u64().unwrap() as usize).collect() };
+    let (dm, um) = (set("dm"), set("um"));
+    (1..=nn).map(|i| (i, format!("{}{}", if dm.contains(&i) { "d" } else { "" }, if um.contains(&i) { "u" } else { "" }))).collect()
+}
+
+fn run_case<T: Rt>(case: &Value, seed: usize) -> Option<String> {
+    let cb = mk_cb(case);
+    let root = build::<T>(&case["kids"], 1, seed);
+    let (tree, tr, tnr) = match walk::<T>(root, case["method"].as_str().unwrap(), &cb) {
+        Ok(x) => x,
+        Err(e) => return Some(e),
+    };
+    let mut flat = vec![];
+    T::flat(&tree, &mut flat);
+    verdict(case, &cb, tr, tnr, Some(flat)).or_else(|| T::consistent(&tree))
 }
 
 pub fn main() {
@@ -350,16 +1030,40 @@ pub fn main() {
                 Err(_) => "panic during the traversal".to_string(),
             };
             nviol += 1;
-            if violations.len() < 30 {
-                violations.push(json!({"case": case, "tree_type": name, "seed_variant": seed, "oracle": msg}));
+            if violations.len() < 400 {
+                let known = if msg.starts_with(&format!("[{KNOWN_JUMP}]")) { Value::from(KNOWN_JUMP) } else { Value::Null };
+                violations.push(json!({"case": case, "tree_type": name, "seed_variant": seed, "oracle": msg, "known_key": known}));
             }
         };
         let want = |n: &str| only.as_deref().map(|o| o == n).unwrap_or(true);
-        if want(RExpr::NAME) { one(RExpr::NAME, catch_unwind(AssertUnwindSafe(|| run_case::<RExpr>(case, seed)))); }
-        if want(RPlan::NAME) { one(RPlan::NAME, catch_unwind(AssertUnwindSafe(|| run_case::<RPlan>(case, seed)))); }
-        if want(RPhys::NAME) { one(RPhys::NAME, catch_unwind(AssertUnwindSafe(|| run_case::<RPhys>(case, seed)))); }
+        match case["mode"].as_str().unwrap_or("tree") {
+            "star" => {
+                let mut outv = vec![];
+                run_star(case, &mut outv);
+                for (name, r) in outv {
+                    if want(&name) {
+                        one(&name, Ok(r));
+                    }
+                }
+            }
+            "subq" => {
+                if want(RPlanSub::NAME) { one(RPlanSub::NAME, catch_unwind(AssertUnwindSafe(|| run_case_subq(case, seed)))); }
+            }
+            _ => {
+                if want(RExpr::NAME) { one(RExpr::NAME, catch_unwind(AssertUnwindSafe(|| run_case::<RExpr>(case, seed)))); }
+                if want(RPlan::NAME) { one(RPlan::NAME, catch_unwind(AssertUnwindSafe(|| run_case::<RPlan>(case, seed)))); }
+                if want(RPhys::NAME) { one(RPhys::NAME, catch_unwind(AssertUnwindSafe(|| run_case::<RPhys>(case, seed)))); }
+                if want(RExec::NAME) { one(RExec::NAME, catch_unwind(AssertUnwindSafe(|| run_case::<RExec>(case, seed)))); }
+                if want(RExprCtx::NAME) { one(RExprCtx::NAME, catch_unwind(AssertUnwindSafe(|| run_case::<RExprCtx>(case, seed)))); }
+                if want(RPlanCtx::NAME) { one(RPlanCtx::NAME, catch_unwind(AssertUnwindSafe(|| run_case::<RPlanCtx>(case, seed)))); }
+            }
+        }
     }
-    let res = json!({"cases": cases.len(), "evaluations": evaluations, "callbacks_compared": callbacks * per_type.len() as u64, "per_tree_type": per_type,
+    let expected_variants: Vec<(String, &str)> = EXPR_VARIANTS.iter().map(|v| (format!("Expr::{v}"), ""))
+        .chain(PLAN_INPUT_VARIANTS.iter().map(|v| (format!("LogicalPlan::{v}"), " inputs")))
+        .chain(PLAN_EXPR_VARIANTS.iter().map(|v| (format!("LogicalPlan::{v}"), " expressions")))
+        .collect();
+    let res = json!({"cases": cases.len(), "evaluations": evaluations, "expected_variants": expected_variants, "callbacks_in_cases": callbacks, "per_tree_type": per_type,
         "distinct_nontrivial": nontrivial.len(), "violations_total": nviol, "violations": violations});
     std::fs::write(&out, serde_json::to_string(&res).unwrap()).unwrap();
     util::summary(json!({"evaluations": evaluations, "violations": nviol}));
